@@ -32,11 +32,7 @@ func (m meanFunc[N]) Val() N {
 	if m.count == m.zero {
 		return m.zero
 	}
-	v := m.sum / m.count
-	if v < 1 {
-		return 1
-	}
-	return v
+	return m.sum / m.count
 }
 
 func (m meanFunc[N]) Partial() Partial[N] {
@@ -63,11 +59,7 @@ func (m meanReduceFunc[N]) Val() N {
 	if m.count == m.zero {
 		return m.zero
 	}
-	v := m.sum / m.count
-	if v < 1 {
-		return 1
-	}
-	return v
+	return m.sum / m.count
 }
 
 func (m *meanReduceFunc[N]) Reset() {
